@@ -173,6 +173,9 @@ def run(ctx: Ctx):
         c, o = tcases[tidx[j]], touts[tidx[j]]
         ctx.report(f"Model/TreeAssign.v and implementation differ (oracle silent): {ta.render_tree(c['tree'])} observed {c['new']!r} flags {c['flags']} -> {o['arg']}",
                    {"kind": "tree", "case": dict(c, new_repr=repr(c["new"])), "source": o["source"]}, no_input=True, kind="correspondence")
+    # constructor calls of a generated dataclass vs Model/CallAssign.v (positional arguments: judged by C05 / C11, finding F-41)
+    from .. import callassign as ca
+    ca.check_part(ctx, 200 if not ctx.thorough else 3000, "C02", positional=False)
     # real sessions
     sp = [gen_prog(ctx.rng, i) for i in range(SESSION_PROGS if not ctx.thorough else 80)]
     for p, o in zip(sp, tmap(run_session_pair, sp)):
@@ -186,6 +189,9 @@ def run(ctx: Ctx):
 
 
 def replay(ctx: Ctx, data):
+    if isinstance(data.get("case"), dict) and data["case"].get("kind") == "call":
+        from .. import callassign as ca
+        return ca.replay_case(data["case"])
     c = data["case"]
     if c.get("kind") == "su":
         case = c["case"]
